@@ -61,6 +61,10 @@ def runSem : RunSem :=
       before run (fun a => a.isCall "Run" && a.recv == "wf.driver") (fun a => a.kind == .recv_ && a.name == "sinkDone") &&
       count (·.kind == .ret_) run == 0,
     readyBeforeStart :=
+      -- `readyToRun` itself visits every process of the set and answers false at the first unready one
+      before rdy (fun a => a.kind == .rangeB_ && a.name == "procs") (fun a => a.kind == .ifB_ && a.name == "!proc.Ready()") &&
+      before rdy (fun a => a.kind == .ifB_ && a.name == "!proc.Ready()") (fun a => a.kind == .ret_ && a.args == ["true"]) &&
+      count (fun a => a.kind == .break_ || a.kind == .continue_ || a.kind == .goto_) rdy == 0 &&
       before run (·.isCall "reconnectDeadEndConnections") (·.isCall "readyToRun") &&
       before run (fun a => a.kind == .ifB_ && a.name == "!wf.readyToRun(procs)") (fun a => a.isCall "Fail" && a.recv == "wf") &&
       before run (fun a => a.isCall "Fail" && a.recv == "wf") (fun a => a.kind == .go_ && a.name == "Run") &&
